@@ -32,8 +32,8 @@ RULE = ("case = (R, P, variant, rmin, pmin, block of failure subsets); non-trivi
 ASSUMPTIONS = ["NaN rules apply to every evaluator call of a run (same failure pattern at every point)"]
 EXHAUSTIVE = {"quick": True, "thorough": True}
 BOUNDS = {"quick": {"exhaustive_R_P": [3, 2]}, "thorough": {"exhaustive_R_P": [3, 3]}}
-REQUIRED = {"quick": {"flags_checked": 8000, "gate_absent_checked": 1500, "grad_entries_compared": 3000, "differential_compared": 300, "garbage_compared": 300, "exit_code_checked": 94, "history_calls_judged": 500, "sampled_cases_with_default_thresholds.more_than_five_perturbations": 8, "sampled_cases_with_mixed_sign_weights": 8, "infinite_value_cases_judged": 90, "rows_with_both_infinities": 100, "__nontrivial__": 300},
-            "thorough": {"flags_checked": 400000, "gate_absent_checked": 80000, "grad_entries_compared": 100000, "differential_compared": 8000, "garbage_compared": 8000, "exit_code_checked": 1906, "history_calls_judged": 12000, "sampled_cases_with_default_thresholds.more_than_five_perturbations": 200, "sampled_cases_with_mixed_sign_weights": 250, "infinite_value_cases_judged": 1800, "rows_with_both_infinities": 2000, "__nontrivial__": 3000}}
+REQUIRED = {"quick": {"flags_checked": 8000, "gate_absent_checked": 1500, "grad_entries_compared": 3000, "differential_compared": 300, "garbage_compared": 300, "exit_code_checked": 94, "history_calls_judged": 500, "sampled_cases_with_default_thresholds.more_than_five_perturbations": 8, "sampled_cases_with_mixed_sign_weights": 8, "sampled_cases_with_negligible_surviving_weights": 6, "infinite_value_cases_judged": 90, "rows_with_both_infinities": 100, "__nontrivial__": 300},
+            "thorough": {"flags_checked": 400000, "gate_absent_checked": 80000, "grad_entries_compared": 100000, "differential_compared": 8000, "garbage_compared": 8000, "exit_code_checked": 1906, "history_calls_judged": 12000, "sampled_cases_with_default_thresholds.more_than_five_perturbations": 200, "sampled_cases_with_mixed_sign_weights": 250, "sampled_cases_with_negligible_surviving_weights": 150, "infinite_value_cases_judged": 1800, "rows_with_both_infinities": 2000, "__nontrivial__": 3000}}
 
 VARIANTS = ["mean", "stddev", "mixed_con", "filter_cvar", "filter_sort", "merged", "zero_weight", "stddev_equal"]
 
@@ -454,7 +454,16 @@ def run_case(case, obs):
             # the estimate is still the mean under the surviving weights divided by their sum
             spec["rweights"] = [3.0, 1.0, -2.0] + [1.0] * (R - 3)
             obs.count("sampled_cases_with_mixed_sign_weights")
-        if rng.random() < 0.3:
+        tiny = (not mixed) and R >= 3 and rng.random() < 0.15
+        if tiny:
+            # realizations that carry nearly all the weight fail, the survivors carry a negligible (positive) share of it: the
+            # estimate is the one of the ensemble made of the survivors, to full precision
+            spec = _base_spec(R, P, "mean", rng)
+            variant = "mean"
+            spec["rmin"], spec["pmin"] = 1, int(rng.integers(1, P + 1))
+            spec["rweights"] = [1.0, 2e-13, 1.0, 5e-13, 3e-12, 1e-14][:R]
+            obs.count("sampled_cases_with_negligible_surviving_weights")
+        if not tiny and rng.random() < 0.3:
             # thresholds left to their documented defaults: every perturbation (every realization) has to succeed
             spec["pmin"] = None
             if rng.random() < 0.3:
@@ -470,6 +479,9 @@ def run_case(case, obs):
                 if rng.random() < 0.18:
                     bits |= 1 << slot
             subsets.append(bits)
+        if tiny:
+            heavy = sum(1 << (r * (P + 1)) for r in range(R) if spec["rweights"][r] == 1.0)      # the unperturbed evaluations of the heavy ones
+            subsets = [heavy, heavy | subsets[0], *subsets[2:]]
     else:
         R, P, variant = case["R"], case["P"], case["variant"]
         rng = rng_for(0, "c03", R, P, variant)
